@@ -29,6 +29,10 @@ CLAIMS = {
         text="Lean theorems: Num.lt/le/eq decide the order of exact rational values (lt_exact, le_exact, eq_exact), so minimum/maximum/exclusive* in both encodings are exact for any mixture of big integers and floats (bounds_exact_d67, bounds_exact_d34, bounds_ignore_non_numbers); multipleOf is exact divisibility for integers of any size (multipleOf_int), never raises for a non-zero divisor (multipleOf_never_raises, kwMultipleOf_total), the Fraction fallback is exact (exactMultiple_spec), exactDouble? recognises exactly the binary64 values (exactDouble_spec), and on the exact sub-domain the float paths decide exact divisibility incl. overflowing quotients (multipleOf_float_divisor_exact, multipleOf_int_divisor_exact). Tie: NUM channel on number pairs (4000-digit integers, whole float exponent range, 2^53 neighbourhood, subnormals) through real single-keyword schemas in four drafts; exact rational oracle from the driver cross-checked with fractions.Fraction.",
         note=TB + "A-float: IEEE-754 binary64 with round-half-even for / and int->float; the rounding branch (roundInexact) is validated by correspondence only, the theorems use the exactly-representable branch.",
         ref="6 C09", tech="Lean 4 proof (exact dyadic arithmetic against Rat) + differential correspondence + rational oracle"),
+    "C10": dict(
+        text="Lean theorems: each draft's REGENERATED keyword table is exactly its vocabulary with the prescribed functions (table_exact), type tables and id keys likewise (types_exact, id_key), other drafts' and later specifications' keywords are unknown to each draft (other_draft_keywords_unknown, other_id_spelling_unknown); inserting an unknown key anywhere among a schema object's keys leaves errors (up to the recorded enclosing schema), stop reason and resolver state unchanged for every validator class (unknown_inert); keys next to $ref are ignored in the four drafts (ref_siblings_inert_drafts; for arbitrary user classes a counterexample shows the claim needs the $ref function not to read siblings). Tie: keyword/type tables regenerated from the source on every run; VAL channel on schemas with foreign keywords; metamorphic monitor inserts 1-3 foreign keywords at random subschema positions and compares erased error multisets on the implementation.",
+        note=TB + "Insertion at nested positions follows from unknown_inert by congruence of the evaluator in its recursive call; that lifting is checked by the monitor, not stated as a separate theorem. Draft 3 'required' inside property subschemas is consulted by the parent and excluded, as the property says.",
+        ref="6 C10", tech="Lean 4 proof (kernel-evaluated regenerated tables; simulation relation over the evaluator) + metamorphic monitor"),
     "C14": dict(
         text="Lean theorem resolve_eq_spec: for every document, token list and percent-encoder, resolve_fragment of the encoded pointer equals RFC 6901 evaluation (value or failure), with corollaries positive/negative/empty_fragment/array_token_spec/scalar_token_spec and the round trips unescape_escape, unquote_pctEncode (UTF-8 via Lean core). Tie: PTR channel on every path of generated documents under five encoders, mutated tokens, arbitrary fragment strings; independent Python oracle walks the document.",
         note=TB + "The replacing UTF-8 decoder (errors='replace') is modelled and tied by correspondence only; theorems use the strict branch.",
@@ -41,6 +45,10 @@ CLAIMS = {
         text="Lean theorems about ErrorTree for every error list in every arrival order: walk_finds, node_errors, walk_isSome_iff, contains_spec, keys_spec, total_errors_spec (= distinct (path, keyword) pairs), node_inst, getitem_errorfree, getitem_child, order_independent. Tie: TREE channel on error lists of real validations in all permutations (<= 4 errors) with lookups; the statements are also evaluated on the implementation's tree.",
         note=TB + "The model's build is total by construction; that the constructor never raises is decided by the correspondence/monitor (repaired defect). Known finding: a propertyNames error filed last at a node makes indexing error-free elements raise.",
         ref="6 C17", tech="Lean 4 proof (representation invariant of the tree under insertion) + differential correspondence"),
+    "C20": dict(
+        text="Lean theorems over the model of validator_for / validates / jsonschema.validate: a registered id (after URI normalisation) selects its class without warning (select_registered), no $schema or a boolean schema selects the caller's default (select_default), an unknown URI selects the latest draft with a warning (select_unknown), validate() without a class equals validate() with the selected class (validate_as_selected), an explicit class wins independently of the registries (explicit_class_wins), registering a new id makes it selectable and disturbs no registration (register_new_id_preserves); the REGENERATED registries map the four draft ids to the four drafts and latest = draft 7 (initial_registry, metaschema_ids). Tie: MOD channel on $schema spellings x bodies/instances on which drafts disagree; monitor compares validate() with the selected class on the implementation.",
+        note=TB + "A-url: urlsplit(u).geturl() is an oracle (dropping an empty fragment/query is a tested URI fact). Sequences of additional registrations are proved on the model (register_new_id_preserves) but not yet exercised against the implementation; the CLI's selection is covered by C19 when claimed.",
+        ref="6 C20", tech="Lean 4 proof (registry lookups, regenerated tables) + differential correspondence + monitor"),
 }
 
 checks = []
